@@ -79,6 +79,9 @@ class SerializedEventAttempt(BaseModel):
     # Per-handler recovery counts on this event's lineage. Maps catch_error
     # handler step name -> invocations so far. Empty on the main graph.
     recovery_counts: dict[str, int] = Field(default_factory=dict)
+    # Worker slot this event was executing on when the state was captured (None
+    # for events that were only queued). The resumed run restarts it on that slot.
+    worker_id: int | None = None
 
 
 class SerializedWaiter(BaseModel):
